@@ -342,6 +342,11 @@ impl Context {
         let ctx = self;
         let mut parent = task.parent();
         while let Some(task) = parent {
+            // an ancestor that is already completed keeps its state
+            if task.state().is_completed() {
+                parent = task.parent();
+                continue;
+            }
             task.set_state(TaskState::Aborted);
             ctx.set_task(&task);
             ctx.emit_task(&ctx.task())?;
